@@ -336,10 +336,12 @@ impl AtomicCacheMetrics {
         self.entry_count.fetch_add(1, Ordering::Relaxed);
 
         // Update memory usage and max atomically
+        // wrapping: a concurrent eviction may have subtracted an entry whose put has not
+        // been recorded yet, so the previous value can be "negative"
         let new_memory = self
             .memory_usage_bytes
             .fetch_add(size_bytes, Ordering::Relaxed)
-            + size_bytes;
+            .wrapping_add(size_bytes);
         self.max_memory_usage_bytes
             .fetch_max(new_memory, Ordering::Relaxed);
 
